@@ -103,6 +103,44 @@ def ensure_entries(schema, wb, flags):
         t["rows"].append(row)
 
 
+def race_frames(block):
+    """the pkg/lmd functions of the two stacks of one race report"""
+    stacks = []
+    for part in block.split("\n\n"):
+        head = part.strip().split("\n")[0] if part.strip() else ""
+        if not (head.startswith(("Read at", "Write at", "Previous read at", "Previous write at")) or "DATA RACE" in head):
+            continue
+        fr = [l.strip() for l in part.split("\n") if l.strip().startswith("pkg/lmd.")]
+        if fr:
+            stacks.append([f.replace("pkg/lmd.", "") for f in fr])
+    return stacks[:2]
+
+
+def split_known(v, reports):
+    """race reports that belong to a listed open finding (identified by the functions of the two accesses) are counted as
+    known hits; everything else stays a violation"""
+    findings = [f for f in common.load_known_findings() if f.get("property") == "C14" and f.get("status", "open") == "open"]
+    rest = []
+    for b in reports:
+        stacks = race_frames(b)
+        tops = [s[0] for s in stacks if s]
+        allf = [x for s in stacks for x in s]
+        hit = None
+        for f in findings:
+            if any(pat in allf for pat in f.get("race_any_frame", [])):
+                hit = f
+            for a, c in f.get("race_pair", []):
+                if len(tops) == 2 and ((a in stacks[0][:3] and c in stacks[1][:3]) or (c in stacks[0][:3] and a in stacks[1][:3])):
+                    hit = f
+            if hit:
+                break
+        if hit:
+            v.known_hits[hit["id"]] = v.known_hits.get(hit["id"], 0) + 1
+        else:
+            rest.append(b)
+    return rest, None
+
+
 def soak_part(ctx, v, rng, schema, out):
     binary, err = common.build_harness(race=True)
     if binary is None:
@@ -125,7 +163,7 @@ def soak_part(ctx, v, rng, schema, out):
                "idle_timeout": 100000, "stale_backend_timeout": 30, "net_timeout": 5, "connect_timeout": 2}
         lines = [{"op": "clock", "id": 1, "seconds": T0},
                  {"op": "daemon", "id": 2, "config": cfg, "backends": conns, "listen": ["l1", "l2"], "ticker_ms": 10},
-                 {"op": "soak", "id": 3, "soak": {"duration_ms": ms, "clients": clients, "restarts": True, "failures": ri != 1}},
+                 {"op": "soak", "id": 3, "soak": {"duration_ms": ms, "clients": clients, "restarts": True, "failures": ri != 1, "reloads": ri != 0 or ctx["tier"] == "quick"}},
                  {"op": "dstop", "id": 4}]
         scratch = os.path.join(common.BUILD, "scratch-%d" % os.getpid())
         os.environ["GORACE"] = "halt_on_error=0 exitcode=0 log_path=%s/r" % racedir
@@ -150,6 +188,7 @@ def soak_part(ctx, v, rng, schema, out):
         for k in ("queries", "rows", "mutations"):
             totals[k] += res.get(k, 0)
         totals["versions"] = max(totals["versions"], res.get("max_version_seen", 0))
+        reports, listed = split_known(v, reports)
         if reports:
             v.violations.append(("property", dict(case, extra=dict(case["extra"], race_report=reports[0][:6000])), "the race detector reported %d data race(s) inside lmd, the first: %s" % (len(reports), reports[0][:1500])))
             continue
